@@ -1703,6 +1703,128 @@ def _fold_adjacent_displays(fn):
     fn.body = scan(fn.body)
 
 
+def _hoist_named_expressions(tree):
+    """N19  stmt[... (x := e) ...]  ->  x = e ; stmt[... x ...]   when the named expression is evaluated unconditionally and
+    everything evaluated before it is a constant or a plain name / attribute chain that does not mention x.
+    `while (x := e) <test>: B`  ->  `while True: x = e ; if not (<test>): break ; B`   (no else clause).
+    A named expression in a conditionally evaluated position (right of and/or, arm of a conditional expression, later link of a
+    comparison chain, comprehension, lambda) is left alone."""
+    FOUND, ABSENT, BLOCKED = 1, 0, -1
+
+    def pure(e, name):
+        if isinstance(e, ast.Constant):
+            return True
+        if isinstance(e, ast.Name):
+            return e.id != name
+        if isinstance(e, ast.Attribute):
+            return pure(e.value, name)
+        return False
+
+    def children(e):
+        """(child, evaluated unconditionally?) in evaluation order"""
+        if isinstance(e, ast.BoolOp):
+            return [(v, i == 0) for i, v in enumerate(e.values)]
+        if isinstance(e, ast.IfExp):
+            return [(e.test, True), (e.body, False), (e.orelse, False)]
+        if isinstance(e, ast.Compare):
+            return [(e.left, True)] + [(c, i == 0) for i, c in enumerate(e.comparators)]
+        if isinstance(e, ast.BinOp):
+            return [(e.left, True), (e.right, True)]
+        if isinstance(e, ast.UnaryOp):
+            return [(e.operand, True)]
+        if isinstance(e, ast.Call):
+            return [(e.func, True)] + [(a, True) for a in e.args] + [(k.value, True) for k in e.keywords]
+        if isinstance(e, ast.Attribute):
+            return [(e.value, True)]
+        if isinstance(e, ast.Subscript):
+            return [(e.value, True), (e.slice, True)]
+        if isinstance(e, ast.Starred):
+            return [(e.value, True)]
+        if isinstance(e, (ast.Tuple, ast.List, ast.Set)):
+            return [(x, True) for x in e.elts]
+        if isinstance(e, ast.JoinedStr):
+            return [(x, True) for x in e.values]
+        if isinstance(e, ast.FormattedValue):
+            return [(e.value, True)]
+        if isinstance(e, (ast.Constant, ast.Name)):
+            return []
+        return None  # comprehension, lambda, dict, slice objects, ...: not looked into
+
+    def scan(e, w):
+        if e is w:
+            return FOUND
+        ch = children(e)
+        if ch is None:
+            return BLOCKED if any(x is w for x in ast.walk(e)) else ABSENT
+        for c, uncond in ch:
+            if any(x is w for x in ast.walk(c)):
+                if not uncond:
+                    return BLOCKED
+                return scan(c, w)
+            # c is evaluated in full before the named expression
+            if not (pure(c, w.target.id) or (isinstance(e, ast.Call) and c is e.func and pure(c, w.target.id))):
+                return BLOCKED
+        return ABSENT
+
+    class _Repl(ast.NodeTransformer):
+        def __init__(self, w):
+            self.w = w
+
+        def visit(self, node):
+            if node is self.w:
+                return ast.copy_location(ast.Name(id=node.target.id, ctx=ast.Load()), node)
+            return super().visit(node)
+
+    def first_walrus(e):
+        for x in ast.walk(e):
+            if isinstance(x, ast.NamedExpr) and isinstance(x.target, ast.Name) and not any(isinstance(y, ast.NamedExpr) for y in ast.walk(x.value)):
+                return x
+        return None
+
+    def hoist_from(expr):
+        """-> (list of assignments, rewritten expression)"""
+        pre = []
+        for _ in range(8):
+            w = first_walrus(expr) if expr is not None else None
+            if w is None or scan(expr, w) != FOUND:
+                break
+            pre.append(ast.copy_location(ast.Assign(targets=[ast.Name(id=w.target.id, ctx=ast.Store())], value=w.value, lineno=w.lineno), w))
+            expr = _Repl(w).visit(expr)
+        return pre, expr
+
+    def block(stmts):
+        out = []
+        for st in stmts:
+            if isinstance(st, FDEFS + (ast.ClassDef,)):
+                st.body = block(st.body)
+                out.append(st)
+                continue
+            for field in ("body", "orelse", "finalbody"):
+                sub = getattr(st, field, None)
+                if isinstance(sub, list) and sub and isinstance(sub[0], ast.stmt):
+                    setattr(st, field, block(sub))
+            if isinstance(st, ast.Try):
+                for hd in st.handlers:
+                    hd.body = block(hd.body)
+            slot = {ast.If: "test", ast.Assign: "value", ast.AugAssign: "value", ast.AnnAssign: "value", ast.Expr: "value", ast.Return: "value", ast.Assert: "test", ast.For: "iter"}.get(type(st))
+            if isinstance(st, ast.While) and not st.orelse and first_walrus(st.test) is not None:
+                pre, test = hoist_from(st.test)
+                if pre:
+                    brk = ast.copy_location(ast.If(test=ast.UnaryOp(op=ast.Not(), operand=test), body=[ast.copy_location(ast.Break(), st)], orelse=[]), st)
+                    st.test = ast.copy_location(ast.Constant(value=True), st)
+                    st.body = pre + [brk] + st.body
+                out.append(st)
+                continue
+            if slot and getattr(st, slot, None) is not None and first_walrus(getattr(st, slot)) is not None:
+                pre, e2 = hoist_from(getattr(st, slot))
+                setattr(st, slot, e2)
+                out.extend(pre)
+            out.append(st)
+        return out
+
+    tree.body = block(tree.body)
+
+
 def _local_annotations_to_assignments(tree):
     """x: T = v  ->  x = v   for plain local names inside functions (the annotation is kept as the assignment's type comment, where
     the truthiness typing still reads it).  Class-level fields and attributes keep their annotated form."""
@@ -1933,6 +2055,7 @@ def normalise_module(module_name: str, tree: ast.Module, multiply_defined: froze
             if isinstance(st.value, ast.Tuple) and st.value.elts and all(isinstance(e, (ast.Name, ast.Attribute)) for e in st.value.elts):
                 mt[st.targets[0].id] = st.value
     mt = {k: v for k, v in mt.items() if counts.get(k) == 1}
+    _hoist_named_expressions(tree)
     _local_annotations_to_assignments(tree)
     tree = _BoolOfCompare().visit(tree)
     for n in ast.walk(tree):
